@@ -1,8 +1,9 @@
 """C06 - the bus authenticates a peer only after a mechanism accepted it.  Correspondence + oracle harness.
 
 Implementation under test: the real `txdbus.bus.BusProtocol` with the real `BusAuthenticator` on a
-`StringTransport` (the SO_PEERCRED lookup switched off through the module flag located by behaviour; `_unix_creds`
-set by hand).
+`StringTransport`.  Peer credentials: the SO_PEERCRED lookup of dataReceived runs for real against a fake socket of
+THAT connection (module flag located by behaviour); only a minority of the single-connection cases, and trees without
+such a switch, get `_unix_creds` set by hand.
 
   scripted streams   the `authenticators` table of a `BusAuthenticator` subclass maps the offered names
                      (same names, same order) to a mechanism whose `step` pops a script of outcomes
@@ -15,6 +16,12 @@ set by hand).
   real stream        the three real mechanisms in a temporary HOME (fake `pwd` module, deterministic
                      `os.urandom`, recording `hashlib.sha1`); conforming and non-conforming clients;
                      the harness computes right and wrong cookie responses like a client would.
+  bus streams        several connections of ONE bus alive at once (state-leak round): every connection has its own
+                     outcome script / its own peer credentials / its own cookie exchange, the reads interleave, connections
+                     are made late, lost ("dropped" without CANCEL), crash (the others go on), the clock advances, the
+                     keyring file may hold entries from before.  Every connection is judged by the full oracle on its own
+                     byte stream + per-connection acceptance clauses; the whole history goes to the bus model
+                     (Auth/ServerMulti.lean, driver commands N / M) and is the replay input.
 
   S3 correspondence  Lean model (drv_c06) vs implementation: lines written, closed, authenticated,
                      crashed, guid, bytes handed to the binary branch, lines handed to the authenticator,
@@ -43,7 +50,8 @@ STREAMS = ['bytes-helpers', 'spec-table', 'scripted-exhaustive', 'scripted-rando
 THEOREMS = ['authenticated_only_after_accept', 'refines_spec_server', 'authenticated_iff_spec',
             'mechanism_consulted_iff_table_asks', 'real_mechanisms_never_raise', 'closes_exactly_when',
             'no_line_processed_after_close', 'conforming_client_accepted', 'conforming_client_accepted_from',
-            'wrong_cookie_never_accepted', 'cookie_accept_tied_to_challenge', 'line_partition_independent']
+            'wrong_cookie_never_accepted', 'cookie_accept_tied_to_challenge', 'line_partition_independent',
+            'bus_authenticated_only_after_accept', 'bus_refines_spec', 'bus_connections_independent']
 TRUSTED_BASE = [
     'Python semantics mirrored by hand in Auth/ServerBytes.lean and validated only by the stream bytes-helpers: '
     'bytes.split(), bytes.strip(), bytes.split(b" ", 1), bytes.split(b"\\r\\n"), binascii.hexlify/unhexlify, '
@@ -1543,7 +1551,7 @@ AGES = [3, 10, 500, 5000, 29, 30, 31, -29, -30, -31, 0]
 def gen_real_case(rng):
     spec = {'creds': rng.choice([None, 1000, 1001, 1000, 5555, -1]), 'creds_gid': rng.choice([77, 1000, 1001]),
             'users': USERS, 'dirs': {}, 'files': {}, 'frac': rng.random() < 0.5,
-            'linux': rng.random() < 0.3}
+            'linux': rng.random() < 0.85}      # mostly: the credentials come out of the code's own getsockopt call
     for h in ('h1', 'h2'):
         st = rng.choice(['absent', 'absent', 'good', 'good', 'bad777', 'file'])
         spec['dirs'][h] = st
